@@ -68,7 +68,7 @@ class CHECK(Check):
     rule = ("(a) every string over the 19-symbol adversarial alphabet (digits, signs, '.', ',', e/E, '_', n/a/i/f, blank, tab, "
             "newline, NUL, ARABIC-INDIC THREE) up to length 3 (quick) / 4 (thorough) as the span of integer, literal, float "
             "(both separators) and date fields placed at start 0 and 2 with two different surroundings; (b) random strings "
-            "up to length 24 from numeric/date grammars with perturbations; (c) bytes lines: all 2-byte strings for 2-byte "
+            "up to length 24 from numeric/date grammars with perturbations; (c) bytes lines: valid spans surrounded by non-ASCII / invalid UTF-8 / multi-byte bytes; all 2-byte strings for 2-byte "
             "numeric fields, random 0-9 byte strings, truncations of valid payloads, invalid UTF-8 from the Table 3-7 "
             "negative classes; (d) sequences of 2-4 reads through one field object, valid and invalid interleaved (slot "
             "carry-over). Each case is read through a one-field Line (positional) so the field's slot is observed too. "
@@ -115,6 +115,27 @@ class CHECK(Check):
                     if k == "date":
                         fd["formats"] = ["%m%d"]
                     yield {"fd": fd, "lines": [[0x20] + [0x31] + seq + [0x32, 0x33]], "bytes": True}
+            # valid span, hostile surroundings (metamorphic: the surroundings must not matter, for bytes too)
+            surround = [[], [0xE9], [0xFF, 0xFE], list("é".encode()), list("€".encode()), [0x80], [0xC3], [0x00], [0x20, 0xF0]]
+            for _ in range(1200 if tier == "quick" else 20000):
+                k = rng.choice(["lit", "date", "date", "int", "float"])
+                pre = rng.choice(surround)
+                post = rng.choice(surround) + rng.choice(surround)
+                if k == "date":
+                    fmt = rng.choice(["%Y%m%d", "%d/%m/%Y", "%H:%M"])
+                    d = datetime.datetime(rng.randint(1000, 9999), rng.randint(1, 12), rng.randint(1, 28), rng.randint(0, 23), rng.randint(0, 59))
+                    body = list(d.strftime(fmt).encode())
+                    fd = {"k": "date", "size": len(body), "start": len(pre), "formats": [fmt]}
+                elif k == "lit":
+                    body = list(rng.choice(["abc", " x ", "Zz9"]).encode())
+                    fd = {"k": "lit", "size": len(body), "start": len(pre)}
+                else:
+                    n = rng.choice([2, 4, 8])
+                    body = [rng.getrandbits(8) for _ in range(n)]
+                    fd = {"k": k, "size": n, "start": len(pre)}
+                    if k == "float":
+                        fd.update({"dd": 2, "fmt": "F", "sep": "."})
+                yield {"fd": fd, "lines": [pre + body + post, [0x41] * len(pre) + body], "bytes": True}
             nb = 3000 if tier == "quick" else 60000
             for _ in range(nb):
                 k = rng.choice(["int", "float", "lit", "date"])
